@@ -68,7 +68,10 @@ func registerAll() {
 	tcell.RegisterEncoding("EUC-KR", korean.EUCKR)
 
 	tcell.RegisterEncoding("GB18030", simplifiedchinese.GB18030)
-	tcell.RegisterEncoding("GB2312", simplifiedchinese.HZGB2312)
+	// As a locale charset GB2312 is the 8-bit EUC-CN form, which GBK
+	// extends; HZ is the 7-bit form of it used in mail and news.
+	tcell.RegisterEncoding("GB2312", simplifiedchinese.GBK)
+	tcell.RegisterEncoding("HZ-GB-2312", simplifiedchinese.HZGB2312)
 	tcell.RegisterEncoding("GBK", simplifiedchinese.GBK)
 
 	tcell.RegisterEncoding("Big5", traditionalchinese.Big5)
